@@ -426,6 +426,10 @@ class Lifter:
             ia, ib = node_it(t[2]), node_it(t[3])
             if ia is not None and ib is not None:
                 t = ('cmp', t[1], ia, ib)
+        if isinstance(t, tuple) and len(t) == 4 and t[0] == 'cmp' and t[1] in ('<', '<=', '!=') and t[3] == ('fncall', 'max', ()) \
+                and isinstance(t[2], tuple) and t[2][:1] in (('lv',), ('var',)):
+            # `count < std::numeric_limits<size_t>::max()` ("no limit"): a local tally of entries never gets there
+            return ('TRUE', (), True)
         if isinstance(t, tuple) and t[0] == 'pred':
             return ('INS_OK' if t[1] == 'insert_allowed' else 'UPD_OK', (t[2],), True)
         if isinstance(t, tuple) and t[0] == 'cmp' and t[1] in ('==', '!='):
